@@ -122,3 +122,20 @@ package message
 //@   loop 1 invariant len(bs) == card(seen1)
 //@   loop 1 invariant forall i int :: 0 <= i && i < len(bs) ==> bs[i] != nil && seen1[blkCid(bs[i])] && gsm.blocks[blkCid(bs[i])] == bs[i]
 //@   loop 1 invariant forall i int, j int :: 0 <= i && i < j && j < len(bs) ==> blkCid(bs[i]) != blkCid(bs[j])
+
+//@ -- C03: the message built carries, for every request with something to say, its metadata list exactly as appended and
+//@ -- the last status recorded for it - partial-response when none was
+//@ func responseCode
+//@   modifies nothing
+//@   ensures result == ite(isComplete, status, graphsync.PartialResponse)
+//@ func Builder.Build
+//@   requires b != nil && b.outgoingResponses != nil
+//@   modifies alloc, allmaps("map[graphsync.RequestID]GraphSyncResponse"), allmaps("map[string]datamodel.Node")
+//@   ensures result1 == nil && result0.blocks == b.outgoingBlocks && result0.requests == b.requests
+//@   ensures forall id graphsync.RequestID :: (id in result0.responses) == (id in b.outgoingResponses)
+//@   ensures forall id graphsync.RequestID :: id in b.outgoingResponses ==> result0.responses[id].requestID == id
+//@             && result0.responses[id].metadata == b.outgoingResponses[id]
+//@             && result0.responses[id].status == ite(id in b.completedResponses, b.completedResponses[id], graphsync.PartialResponse)
+//@   loop 1 invariant forall id graphsync.RequestID :: (id in responses) == seen1[id]
+//@   loop 1 invariant forall id graphsync.RequestID :: seen1[id] ==> responses[id].requestID == id && responses[id].metadata == b.outgoingResponses[id]
+//@             && responses[id].status == ite(id in b.completedResponses, b.completedResponses[id], graphsync.PartialResponse)
